@@ -84,19 +84,19 @@ type GWConfig struct {
 	Krb5Conf string
 
 	// process level
-	Race      bool
-	Strace    bool
-	Points    string // RDPGW_VERIF_POINTS
-	ExtraEnv  []string
-	RawYAML   string // when set, used verbatim instead of the generated YAML (port substituted for {{PORT}})
-	NoFile    bool   // do not pass a config file at all (environment only)
-	ExpectExit bool  // start-up refusal expected: do not treat exit as failure
+	Race       bool
+	Strace     bool
+	Points     string // RDPGW_VERIF_POINTS
+	ExtraEnv   []string
+	RawYAML    string // when set, used verbatim instead of the generated YAML (port substituted for {{PORT}})
+	NoFile     bool   // do not pass a config file at all (environment only)
+	ExpectExit bool   // start-up refusal expected: do not treat exit as failure
 	TmpDir     string // TMPDIR of the process (default: a private directory)
 }
 
-func BoolP(b bool) *bool     { return &b }
-func StrP(s string) *string  { return &s }
-func IntP(i int) *int        { return &i }
+func BoolP(b bool) *bool    { return &b }
+func StrP(s string) *string { return &s }
+func IntP(i int) *int       { return &i }
 
 const Key32a = "0123456789abcdef0123456789abcdef"
 
@@ -224,17 +224,17 @@ func (c *GWConfig) YAML(port int) string {
 
 // GW is a running gateway process.
 type GW struct {
-	Lab     *Lab
-	Cfg     *GWConfig
-	Dir     string
-	Port    int
-	Addr    string // 127.0.0.1:port
-	DbgAddr string
-	Cmd     *exec.Cmd
-	LogPath string
-	EvPath  string
+	Lab        *Lab
+	Cfg        *GWConfig
+	Dir        string
+	Port       int
+	Addr       string // 127.0.0.1:port
+	DbgAddr    string
+	Cmd        *exec.Cmd
+	LogPath    string
+	EvPath     string
 	StracePath string
-	YAMLText string
+	YAMLText   string
 
 	exited   chan struct{}
 	ExitErr  error
